@@ -36,14 +36,18 @@ _T = TypeVar("_T")
 
 def _sanitizeLinearWhitespace(headerComponent: bytes) -> bytes:
     r"""
-    Replace linear whitespace (C{\n}, C{\r\n}, C{\r}) in a header
+    Replace linear whitespace (C{\n}, C{\r\n}, C{\r}) and NUL in a header
     value with a single space.
+
+    RFC 9110 section 5.5 names CR, LF and NUL as the octets which are
+    invalid and dangerous in a field value; a message carrying any of them
+    is rejected by conforming recipients.
 
     @param headerComponent: The header value to sanitize.
 
     @return: The sanitized header value.
     """
-    return b" ".join(headerComponent.splitlines())
+    return b" ".join(headerComponent.splitlines()).replace(b"\x00", b" ")
 
 
 @comparable
